@@ -365,7 +365,11 @@ Lemma ex_roundtrip :
   /\ impl_read_hostname toy_open (repeat 8 16) (floodgate_encode toy_seal ex_key ex_iv ex_host (bedrock_fields ex_data)) = Err.
 Proof. vm_compute. split; reflexivity. Qed.
 
-(* ---------- crash freedom: the check the code lacks ---------- *)
+(* ---------- crash freedom ---------- *)
+
+(* today's code is the specification (the nonce length is checked since commit 6b22eb8) *)
+Lemma read_hostname_impl_is_spec open k x : impl_read_hostname open k x = spec_read_hostname open k x.
+Proof. reflexivity. Qed.
 
 Lemma spec_never_panics open k x : spec_read_hostname open k x <> Panic.
 Proof.
@@ -378,9 +382,13 @@ Proof.
   destruct (read_bedrock_data p); discriminate.
 Qed.
 
-Lemma impl_panics_iff open k x : impl_read_hostname open k x = Panic <-> trigger_bad_iv x = true.
+Lemma impl_never_panics open k x : impl_read_hostname open k x <> Panic.
+Proof. rewrite read_hostname_impl_is_spec. apply spec_never_panics. Qed.
+
+(* facts about the PRE-fix code (finding C39-1, repaired) *)
+Lemma prefix_panics_iff open k x : prefix_read_hostname open k x = Panic <-> trigger_bad_iv x = true.
 Proof.
-  unfold impl_read_hostname, read_hostname_gen, trigger_bad_iv.
+  unfold prefix_read_hostname, read_hostname_gen, trigger_bad_iv.
   destruct (split_on 0 x) as [|original [|data [|? ?]]]; try (split; discriminate).
   unfold decrypt_gen.
   destruct (envelope_of_blob _) as [[iv c]|]; [|split; discriminate].
@@ -389,10 +397,10 @@ Proof.
   destruct (read_bedrock_data p); split; discriminate.
 Qed.
 
-Lemma impl_eq_spec_off_trigger open k x : trigger_bad_iv x = false ->
-  impl_read_hostname open k x = spec_read_hostname open k x.
+Lemma prefix_eq_spec_off_trigger open k x : trigger_bad_iv x = false ->
+  prefix_read_hostname open k x = spec_read_hostname open k x.
 Proof.
-  unfold impl_read_hostname, spec_read_hostname, read_hostname_gen, trigger_bad_iv.
+  unfold prefix_read_hostname, spec_read_hostname, read_hostname_gen, trigger_bad_iv.
   destruct (split_on 0 x) as [|original [|data [|? ?]]]; try reflexivity.
   unfold decrypt_gen.
   destruct (envelope_of_blob _) as [[iv c]|]; [|reflexivity].
@@ -403,5 +411,10 @@ Qed.
 Definition crash_hostname : bytes :=
   [104; 0] ++ header ++ [65; 65; 65; 65; 33] ++ repeat 65 24.
 
-Lemma impl_panics_refuted open k : trigger_bad_iv crash_hostname = true /\ impl_read_hostname open k crash_hostname = Panic.
-Proof. split; [vm_compute; reflexivity|]. apply impl_panics_iff. vm_compute. reflexivity. Qed.
+Lemma prefix_panics_refuted open k :
+  trigger_bad_iv crash_hostname = true /\ prefix_read_hostname open k crash_hostname = Panic /\
+  impl_read_hostname open k crash_hostname = Err.
+Proof.
+  split; [vm_compute; reflexivity|]. split; [apply prefix_panics_iff; vm_compute; reflexivity|].
+  vm_compute. reflexivity.
+Qed.
